@@ -170,9 +170,11 @@ Lemma spine_inv_snoc o init lc : spine (Node o (init ++ [lc])) ->
   cfl init = false /\ (pend lc = true -> length (init ++ [lc]) = m) /\
   (is_root_op (nop lc) = true -> cf lc = false) /\ (is_root_op (nop lc) = false -> spine lc).
 Proof.
-  intros H. inversion H as [o' Ho E|o' init' lc' m Ho Hm Hlen Hi Hp Hr Hs E].
-  - destruct init; discriminate.
-  - apply app_inj_tail in H0. destruct H0 as [-> ->]. split; [exact Ho|]. exists m. auto 10.
+  intros H. remember (Node o (init ++ [lc])) as x eqn:Ex.
+  destruct H as [o' Ho|o' init' lc' m Ho Hm Hlen Hi Hp Hr Hs].
+  - injection Ex as _ E. destruct init; discriminate E.
+  - injection Ex as Eo E. subst o'. apply app_inj_tail in E. destruct E as [-> ->].
+    split; [exact Ho|]. exists m. auto 10.
 Qed.
 
 Lemma spine_seq o ch : spine (Node o ch) -> is_seq_op o = false.
